@@ -52,6 +52,30 @@ def run(ctx):
                 elif len(violations) < 25 and not any(v['signature'] == sig for v in violations):
                     violations.append(dict(property='C11', input=req[2], entry=req[0], options=req[1], signature=sig, impl_outcome=item[3][0][:1500],
                                            how='Eval.errOK (Lean) evaluated on the implementation\'s ParsingError'))
+    # "for an unexpected end of input p is len(s)" must not be a way out for an offending TOKEN: where the implementation reports
+    # 'unexpected EOF' and GNU bash -n (search aid) names a concrete token, the error was not located at the offending token
+    import subprocess, os
+    from concurrent.futures import ThreadPoolExecutor
+    if os.path.exists('/usr/bin/bash') or os.path.exists('/bin/bash'):
+        eofs = [(req, item[3][0]) for req, item in zip(keep, items) if '|"unexpected EOF"|' in item[3][0] and req[0] == 'parse' and not req[1]
+                and not any(x in req[2] for x in ('<<', '$', '`', '\\\n')) and all(ord(c) < 128 for c in req[2])]
+        eofs = eofs[:3000 if quick else 40000]
+        def bashmsg(s):
+            try:
+                p = subprocess.run(['bash', '--norc', '--noprofile', '-n'], input=s.encode(), stdout=subprocess.DEVNULL, stderr=subprocess.PIPE, timeout=5, env={'PATH': '/usr/bin:/bin'})
+                return p.stderr.decode(errors='replace')
+            except Exception:
+                return ''
+        with ThreadPoolExecutor(16) as ex: msgs = list(ex.map(bashmsg, [r[2] for r, _ in eofs]))
+        for (req, out), m in zip(eofs, msgs):
+            if 'near unexpected token' in m and "`newline'" not in m:
+                sig = 'eof-reported-but-a-token-is-unexpected'
+                sig_count[sig] += 1
+                fid = common.match_finding(findings, sig, req[2])
+                if fid: finding_hits.setdefault(fid, req[2][:80])
+                elif len(violations) < 25 and not any(v['signature'] == sig for v in violations):
+                    violations.append(dict(property='C11', input=req[2], entry=req[0], options=req[1], signature=sig, impl_outcome=out[:600], bash_says=m.strip()[:300],
+                                           how='the implementation reports unexpected EOF at len(s); GNU bash -n (search aid) names the offending token'))
     return dict(evaluations=len(reqs), distinct_nontrivial=len(nontrivial),
                 rule='rejected inputs: syntax-breaking mutations of generated scripts placed at top level, inside $(..), nested twice, in line 3, and followed by '
                      'more text; every string up to length %d; corpus; non-trivial = distinct input raising ParsingError (its triple is then checked). Calls '
